@@ -396,6 +396,8 @@ func relevant(prop string, m []any) bool {
 	switch prop {
 	case "C01":
 		return in(code, 17, 33, 35, 36) || in(errType, 16, 32, 34)
+	case "C19": // routing by URI: events and invocations, registrations and subscriptions
+		return in(code, 17, 33, 35, 36, 65, 67, 68) || in(errType, 16, 32, 34, 64, 66, 48)
 	case "C02":
 		return code == 50 || errType == 48
 	case "C03":
